@@ -220,6 +220,8 @@ class Model:
             sub, _, name = k.rpartition(':')
             if sub and name in BUILTINS:
                 dirty |= st.user.get(k) != v
+            elif sub and st.applied[sub][name].yielding and k not in st.user:
+                dirty = True    # an option that stops yielding is a change even if the value is the same
             else:
                 dirty |= probe.value(k) != v
         for k in unset:
